@@ -37,6 +37,12 @@ fn ip_of(v: u8) -> [u8; 4] {
     [10, 0, 0, v << 4]
 }
 
+fn ip6_of(v: u8) -> [u8; 16] {
+    let mut a = [0u8; 16];
+    a[..4].copy_from_slice(&ip_of(v));
+    a
+}
+
 struct Mesh<P: Protocol> {
     sim: Sim<P>,
     data: HashMap<u64, (u64, Vec<u8>)>, // datagram id -> (fid, frame bytes)
@@ -216,8 +222,14 @@ pub fn run_random(nruns: u64, len: u64, out_path: &str, mode: &str, nodes: usize
                     let srcv: u8 = rng.gen_range(0..16);
                     let mut payload = vec![0u8; 24];
                     rng.fill(&mut payload[..]);
-                    let f = ipv4_packet(ip_of(srcv), ip_of(dstv), &payload);
-                    m.iface(n, f, json!([UNTAGGED, srcv]), json!([UNTAGGED, dstv]), &mut t);
+                    if rng.gen_bool(0.25) {
+                        // the same leading bytes as an IPv6 address: another family, covered by no (IPv4) claim
+                        let f = ipv6_packet(ip6_of(srcv), ip6_of(dstv), &payload);
+                        m.iface(n, f, json!([6, srcv]), json!([6, dstv]), &mut t);
+                    } else {
+                        let f = ipv4_packet(ip_of(srcv), ip_of(dstv), &payload);
+                        m.iface(n, f, json!([UNTAGGED, srcv]), json!([UNTAGGED, dstv]), &mut t);
+                    }
                 } else if x < 85 {
                     let fl = m.in_flight();
                     if !fl.is_empty() {
